@@ -481,6 +481,16 @@ def _desugar_site(prog, fn, raw, b, t):
         entry, loff = B.splice_closure(clo.raw, env, ops, lambda ro: B.block([_assign(copy.deepcopy(dest), {"rv": "use", "a": _mv(_pl(ro))}, span)], B.goto(T)))
         return finish(entry)
 
+    # ---- cond.then(|| v)  ==  if cond { Some(v) } else { None }
+    if cal == "core::bool::<impl bool>::then" and len(args) == 2:
+        clo, env = _closure_of_operand(prog, fn, args[1], b)
+        if clo is None or clo.id == fn.id or _nargs(clo) != 0:
+            return False
+        entry, loff = B.splice_closure(clo.raw, env, [], lambda ro: B.block([_assign(copy.deepcopy(dest), _agg(OPT, "Some", [_mv(_pl(ro))]), span)], B.goto(T)))
+        none = B.block([_assign(copy.deepcopy(dest), {"rv": "agg", "agg": "adt", "adt": OPT, "variant": "None", "fields": [], "ops": []}, span)], B.goto(T))
+        sw = B.block([], {"t": "switch", "discr": copy.deepcopy(args[0]), "dty": "bool", "span": span, "targets": [["0", none]], "otherwise": entry})
+        return finish(sw)
+
     recv_adt = _adt_of((t.get("arg_tys") or [""])[0]) if t.get("arg_tys") else None
     is_res = cal.startswith(RES + "::")
     is_opt = cal.startswith(OPT + "::")
@@ -672,7 +682,7 @@ def desugar_closures(prog, max_rounds=4):
             cur = fn
             for b, t in sites:
                 cal = t.get("callee") or ""
-                if not (cal.startswith((RES + "::", OPT + "::", "core::iter::traits::iterator::Iterator::", "core::ops::function::Fn"))):
+                if not (cal.startswith((RES + "::", OPT + "::", "core::iter::traits::iterator::Iterator::", "core::ops::function::Fn", "core::bool::"))):
                     continue
                 if raw is None:
                     raw = copy.deepcopy(fn.raw)
@@ -746,3 +756,36 @@ def _mark_propagation(raw, blk, t):
         return
     if _propagates(raw, d["l"]):
         raw.setdefault("err_ret_locals", []).append(d["l"])
+
+
+def strip_debug_asserts(prog):
+    """Remove the code that exists only to evaluate `debug_assert!`s (release builds do not contain it): the
+    `if cfg!(debug_assertions)` test jumps straight to its join and the region in between is marked dead."""
+    from .util import assert_only_blocks
+    n = 0
+    for fn in list(prog.fns.values()):
+        if fn.crate != "abyssiniandb" or not fn.blocks:
+            continue
+        region = assert_only_blocks(fn)
+        if not region:
+            continue
+        raw = copy.deepcopy(fn.raw)
+        heads = []
+        for b, blk in enumerate(fn.blocks):
+            t = blk["term"]
+            if blk["cleanup"] or b in region or not t or t["t"] != "switch" or t["dty"] != "bool":
+                continue
+            tg = {v: bb for v, bb in t["targets"]}
+            f_t = tg.get("0")
+            t_t = t["otherwise"] if "0" in tg else tg.get("1")
+            if t_t in region and f_t is not None and f_t not in region:
+                heads.append((b, f_t))
+        if not heads:
+            continue
+        for b, f_t in heads:
+            raw["blocks"][b]["term"] = {"t": "goto", "target": f_t, "span": raw["blocks"][b]["term"].get("span")}
+        for x in region:
+            raw["blocks"][x]["cleanup"] = True
+        prog.replace_fn(Fn(fn.crate, raw))
+        n += 1
+    return n
